@@ -80,7 +80,7 @@ ASSUMPTIONS = [
     'most batches run behind a warm-up (one sequential request, then one per application) so that the known '
     'first-request race of the descriptor cache does not hide everything else; cold batches are counted separately',
 ]
-FLOORS = {'size:8+': 0.4, 'size:32-64': 0.15, 'fault:any': 0.4, 'apps:2+': 0.25, 'selector:abtest': 0.06, 'cold': 0.04, 'nonmonotone': 0.4}
+FLOORS = {'size:8+': 0.4, 'size:32-64': 0.15, 'fault:any': 0.4, 'apps:2+': 0.25, 'selector:abtest': 0.06, 'cold': 0.02, 'nonmonotone': 0.4}
 SHARDS_THOROUGH = 8  # two shards per pool size 1-4; every shard runs its own engine with ~20 processes
 LEVEL_TEXT = (
     'Fault enumeration over sampled schedules: generated batches of concurrent requests with injected platform faults '
